@@ -251,4 +251,15 @@ pub struct ReplayFile {
     pub aux: Option<Scenario>,
     pub scenario: Scenario,
     pub original_steps: usize,
+    /// Set when the run could not be recorded as a step list because a poll never returned:
+    /// the replay regenerates the run from (seed, index) and watches the clock.
+    #[serde(default)]
+    pub regenerate: Option<Regenerate>,
+}
+
+#[derive(Clone, Debug, Serialize, Deserialize)]
+pub struct Regenerate {
+    pub tier: String,
+    pub index: u64,
+    pub systematic: bool,
 }
